@@ -340,6 +340,15 @@ def role_of(kinds, what):
 def run(sess):
     global BIGW
     BIGW = 64 if sess.tier == 'quick' else 128
+    prev_logic = sess.decider.logic
+    sess.decider.logic = 'QF_FPBV'      # bit-vector + floating point only: eager bit-blasting is 10-20x faster here
+    try:
+        _run(sess)
+    finally:
+        sess.decider.logic = prev_logic
+
+
+def _run(sess):
     META['bounds'] = f'every i32; big ints as {BIGW}-bit signed values with |n| < 2^{BIGW - 2}; every f64 bit pattern (NaNs, infinities, signed zeros, subnormals)'
     # (1) reflexivity
     for k in KINDS:
